@@ -36,7 +36,13 @@ static void case_c04(const args_t *a, long c, rng_t *r)
 		/* a key that needs merging */
 		size_t cand = 0, n = 0;
 		for (size_t i = 0; i < f.flat.n; i++) if (i + 1 < f.flat.n && key_cmp(f.flat.e[i].k.p, f.flat.e[i].k.n, f.flat.e[i + 1].k.p, f.flat.e[i + 1].k.n) == 0) { if (rndn(r, ++n) == 0) cand = i; }
-		if (n) { mc.have_fail = 1; mc.fail_key = f.flat.e[cand].k.p; mc.fail_len = f.flat.e[cand].k.n; fail_idx = model_lb(&f.merged, mc.fail_key, mc.fail_len); }
+		if (n) {
+			mc.have_fail = 1; mc.fail_key = f.flat.e[cand].k.p; mc.fail_len = f.flat.e[cand].k.n; fail_idx = model_lb(&f.merged, mc.fail_key, mc.fail_len);
+			/* multiplicity of that key: fail on a later fold when there is one (an earlier fold of the same key succeeded) */
+			size_t mult = 0; for (size_t i = 0; i < f.flat.n; i++) if (key_cmp(f.flat.e[i].k.p, f.flat.e[i].k.n, mc.fail_key, mc.fail_len) == 0) mult++;
+			if (mult >= 3 && rndn(r, 2)) { mc.fail_on_fold = 2 + (int)rndn(r, (uint32_t)mult - 2); STAT("c04.failing_callback_on_later_fold"); }
+			mc.fail_untouched = rndn(r, 2);
+		}
 		else mode = 0;
 	}
 	struct mtbl_merger *m = mk_merger(&f, &mc, mode);
@@ -79,7 +85,7 @@ static void case_c04(const args_t *a, long c, rng_t *r)
 			if (mtbl_iter_next(mi.it, &k, &lk, &v, &lv) == mtbl_res_success)
 				viol("C04/entry-returned-after-merge-failure-without-seek", "after the merge function failed for key %s the next call returned key %s with %zu value bytes", hexs(mc.fail_key, mc.fail_len), hexs(k, lk), lv);
 			/* the application retries: one-off failure over, seek back to the key -> full fold */
-			mc.have_fail = 0;
+			mc.have_fail = 0; mc.folds_of_fail_key = 0;
 			mi.failed = true;
 			miter_seek(&mi, f.merged.e[fail_idx].k.p, f.merged.e[fail_idx].k.n, "retry-after-merge-failure");
 			miter_next(&mi, "retry-after-merge-failure"); miter_next(&mi, "retry-after-merge-failure");
